@@ -41,9 +41,29 @@ def expand_comparisons(stm: AST) -> AST:
     WE CAN NOT DO THIS REPLACEMENT IN THE FRONT OF COMPARISONS
     OR IN THE HEAD OF A RULE, wait for general clingo preprocessor
     """
-    if stm.ast_type in (ASTType.Rule, ASTType.Minimize):
+    if stm.ast_type == ASTType.Rule:
+        return stm.update(head=_normalize_operators_head(stm.head), body=normalize_operators(stm.body))
+    if stm.ast_type == ASTType.Minimize:
         return stm.update(body=normalize_operators(stm.body))
     return stm
+
+
+def _normalize_operators_head(head: AST) -> AST:
+    """expand the comparisons in the conditions of head elements (the literals of the head itself stay as they are)"""
+    if head.ast_type in (ASTType.Aggregate, ASTType.Disjunction):
+        return head.update(
+            elements=[elem.update(condition=_normalize_operators_condition(elem.condition)) for elem in head.elements]
+        )
+    if head.ast_type == ASTType.HeadAggregate:
+        return head.update(
+            elements=[
+                elem.update(
+                    condition=elem.condition.update(condition=_normalize_operators_condition(elem.condition.condition))
+                )
+                for elem in head.elements
+            ]
+        )
+    return head
 
 
 def _normalize_operators_condition(condition: list[AST]) -> list[AST]:
